@@ -18,7 +18,7 @@ def run(tier):
     base = ec.random_jobs(rnd, n, label='ops')
     for k, j in enumerate(base):
         at = rnd.randint(1, 25)
-        kind = k % 6
+        kind = k % 8
         if kind == 0:
             j['ops'] = [dict(at=at, op='pause'), dict(at=at + rnd.randint(1, 10), op='resume')]
         elif kind == 1:
@@ -29,11 +29,15 @@ def run(tier):
             j['dups'] = 2
         elif kind == 4:
             j['ops'] = [dict(at=at, op='pause'), dict(at=at + 2, op='stop', state=rnd.choice(['ERROR', 'CANCELLED']))]
+        elif kind in (6, 7):
+            # a finished (stopped) execution receives a pause and then a resume: nothing may move
+            j['ops'] = [dict(at=at, op='stop', state=('CANCELLED', 'ERROR', 'SUCCESS')[(k // 8) % 3]), dict(at=at + 1 + k % 3, op='pause'),
+                        dict(at=at + 5, op='resume')]
         else:
             j['ops'] = [dict(at=60, op='rerun', reset=True), dict(at=61, op='stop', state='ERROR')]
         jobs.append(j)
     return ec.run_property(PID, tier, jobs,
-                           'generated programs with operator commands (pause, resume, stop with each state, rerun) and duplicate deliveries '
+                           'generated programs with operator commands (pause, resume, stop with each state, rerun; pause + resume of a stopped execution) and duplicate deliveries '
                            'issued at random points of the run; every individual state write (SQL level) and every committed state is judged; '
                            'non-trivial = distinct runs with at least one operator command or duplicate',
                            _nontrivial, strict=True,
